@@ -15,14 +15,17 @@ Trace     == ndJsonDeserialize(TraceFile)
 
 VARIABLES l,       \* index of the next event
           bad,     \* sequence of [l, tag, dev]: violated clauses so far
-          stats    \* counters by class, for the evidence file
-tvars == << vars, l, bad, stats >>
+          stats,   \* counters by class, for the evidence file
+          nt       \* the current case (since the last reset) had a judgement that binds the code
+tvars == << vars, l, bad, stats, nt >>
 
 StatKeys == {"build", "setbuf", "marshal_ok", "marshal_err", "size", "dest", "header", "string",
              "dec_valid", "dec_mustreject", "dec_undefined", "dec_accepted", "dgram_valid", "dgram_mustreject",
-             "dgram_undefined", "dgram_accepted", "unit_dec", "unit_enc", "reset", "roundtrips", "wf_values"}
+             "dgram_undefined", "dgram_accepted", "unit_dec", "unit_enc", "reset", "roundtrips", "wf_values",
+             "cases_nontrivial"}
+Binding == {"dec_valid", "dec_mustreject", "dgram_valid", "dgram_mustreject", "wf_values", "unit_dec", "unit_enc", "roundtrips"}
 TraceInit ==
-  /\ Init /\ l = 1 /\ bad = << >> /\ stats = [k \in StatKeys |-> 0]
+  /\ Init /\ l = 1 /\ bad = << >> /\ stats = [k \in StatKeys |-> 0] /\ nt = FALSE
 
 Bump(s, ks) == [k \in StatKeys |-> IF k \in ks THEN s[k] + 1 ELSE s[k]]
 
@@ -36,7 +39,7 @@ Attribute(strict, all, single(_)) ==
                   THEN CHOOSE d \in Deviations : t \notin single(d) ELSE "several"] : t \in S }
 SetToSeq(S) == LET RECURSIVE go(_) go(T) == IF T = {} THEN << >> ELSE LET x == CHOOSE x \in T : TRUE IN << x >> \o go(T \ {x})
                IN go(S)
-Record(tags) == bad \o [i \in 1..Cardinality(tags) |-> [l |-> l, tag |-> SetToSeq(tags)[i].tag, dev |-> SetToSeq(tags)[i].dev]]
+Record(tags, kind) == LET sq == SetToSeq(tags) IN bad \o [i \in 1..Len(sq) |-> [l |-> l, tag |-> sq[i].tag, dev |-> sq[i].dev, kind |-> kind]]
 
 \* judge with guard G(D) and extra (deviation-independent) tags X
 Verdict(G(_), X) ==
@@ -44,19 +47,23 @@ Verdict(G(_), X) ==
   IF strict = {} THEN {} ELSE Attribute(strict, G(Deviations) \cup X, LAMBDA d : G({d}) \cup X)
 
 e == Trace[l]
-Step(tags, ks) == /\ l' = l + 1 /\ bad' = Record(tags) /\ stats' = Bump(stats, ks)
+Step(tags, ks, kind) ==
+  /\ l' = l + 1 /\ bad' = Record(tags, kind)
+  /\ IF "reset" \in ks THEN /\ stats' = Bump(stats, ks \cup (IF nt THEN {"cases_nontrivial"} ELSE {})) /\ nt' = FALSE
+     ELSE /\ stats' = Bump(stats, ks) /\ nt' = (nt \/ ks \cap Binding # {})
 
 Modified(ev) == IF ev.post.k # "SAME" THEN {"C18:packet_modified"} ELSE {}
 InputMod(ev) == IF ~ev.bufsame THEN {"C18:input_modified"} ELSE {}
 
 TrBuild ==
   /\ e.op = "build" /\ Build(e.h, e.v)
-  /\ Step({}, {"build"} \cup (IF WFAny({}, e.v) THEN {"wf_values"} ELSE {}))
-TrSetBuf == /\ e.op = "setbuf" /\ SetBuf(e.h, e.bytes) /\ Step({}, {"setbuf"})
+  /\ Step({}, {"build"} \cup (IF WFAny({}, e.v) THEN {"wf_values"} ELSE {}), "-")
+TrSetBuf == /\ e.op = "setbuf" /\ SetBuf(e.h, e.bytes) /\ Step({}, {"setbuf"}, "-")
 TrReset ==
   /\ e.op = "reset"
   /\ pk' = [h \in H |-> None] /\ buf' = [h \in H |-> << >>] /\ prov' = [h \in H |-> None] /\ memo' = [h \in H |-> NoMemo]
-  /\ Step({}, {"reset"})
+  /\ fromdec' = {} /\ provdec' = {}
+  /\ Step({}, {"reset"}, "-")
 
 MarshalRes(ev) == [ok |-> ev.ok, out |-> ev.out, panic |-> ev.panic]
 TrMarshal ==
@@ -66,33 +73,35 @@ TrMarshal ==
      IN  /\ buf'  = [buf EXCEPT ![e.h] = IF res.ok THEN res.out ELSE << >>]
          /\ prov' = [prov EXCEPT ![e.h] = IF res.ok THEN pk[e.h] ELSE None]
          /\ memo' = [memo EXCEPT ![e.h].marshal = res]
+         /\ provdec' = IF res.ok /\ e.h \in fromdec THEN provdec \cup {e.h} ELSE provdec \ {e.h}
+         /\ UNCHANGED fromdec
          /\ pk'   = IF e.post.k = "SAME" THEN pk ELSE [pk EXCEPT ![e.h] = e.post]
-         /\ Step(Verdict(G, Modified(e)), {IF res.ok THEN "marshal_ok" ELSE "marshal_err"})
+         /\ Step(Verdict(G, Modified(e)), {IF res.ok THEN "marshal_ok" ELSE "marshal_err"}, pk[e.h].k)
 TrSize ==
   /\ e.op = "size"
   /\ LET G(D) == SizeGuard(D, e.h, e.out) IN
-     /\ memo' = [memo EXCEPT ![e.h].size = e.out] /\ UNCHANGED << buf, prov >>
+     /\ memo' = [memo EXCEPT ![e.h].size = e.out] /\ UNCHANGED << buf, prov, fromdec, provdec >>
      /\ pk' = IF e.post.k = "SAME" THEN pk ELSE [pk EXCEPT ![e.h] = e.post]
-     /\ Step(Verdict(G, Modified(e)), {"size"})
+     /\ Step(Verdict(G, Modified(e)), {"size"}, pk[e.h].k)
 TrDest ==
   /\ e.op = "dest"
   /\ LET G(D) == DestGuard(D, e.h, e.out) IN
-     /\ memo' = [memo EXCEPT ![e.h].dest = e.out] /\ UNCHANGED << buf, prov >>
+     /\ memo' = [memo EXCEPT ![e.h].dest = e.out] /\ UNCHANGED << buf, prov, fromdec, provdec >>
      /\ pk' = IF e.post.k = "SAME" THEN pk ELSE [pk EXCEPT ![e.h] = e.post]
-     /\ Step(Verdict(G, Modified(e)), {"dest"})
+     /\ Step(Verdict(G, Modified(e)), {"dest"}, pk[e.h].k)
 TrHeader ==
   /\ e.op = "header"
   /\ LET G(D) == HeaderGuard(D, e.h, e.out) IN
-     /\ UNCHANGED << buf, prov, memo >>
+     /\ UNCHANGED << buf, prov, memo, fromdec, provdec >>
      /\ pk' = IF e.post.k = "SAME" THEN pk ELSE [pk EXCEPT ![e.h] = e.post]
-     /\ Step(Verdict(G, Modified(e)), {"header"})
+     /\ Step(Verdict(G, Modified(e)), {"header"}, pk[e.h].k)
 TrString ==
   /\ e.op = "string"
   /\ LET res == [panic |-> e.panic, out |-> e.out]
          G(D) == StringGuard(e.h, res) IN
-     /\ memo' = [memo EXCEPT ![e.h].str = e.out] /\ UNCHANGED << buf, prov >>
+     /\ memo' = [memo EXCEPT ![e.h].str = e.out] /\ UNCHANGED << buf, prov, fromdec, provdec >>
      /\ pk' = IF e.post.k = "SAME" THEN pk ELSE [pk EXCEPT ![e.h] = e.post]
-     /\ Step(Verdict(G, Modified(e)), {"string"})
+     /\ Step(Verdict(G, Modified(e)), {"string"}, pk[e.h].k)
 
 DecRes(ev) == [ok |-> ev.ok, out |-> ev.out, panic |-> ev.panic, slow |-> ev.slow, alloc |-> ev.alloc]
 DecClass(prefix, st, ok) ==
@@ -101,33 +110,43 @@ DecClass(prefix, st, ok) ==
 TrUnmarshal ==
   /\ e.op = "unmarshal"
   /\ LET res == DecRes(e)
-         G(D) == UnmarshalGuard(D, e.entry, e.b, res) IN
+         \* C11: CompoundPacket.Unmarshal agrees with rtcp.Unmarshal + Validate on
+         \* the same buffer (e.dh = handle holding that datagram result, 0 if none)
+         X == IF e.entry = "CP" /\ e.dh # 0 /\ ~res.panic THEN
+                 (IF pk[e.dh].k = "LIST" THEN
+                     (IF res.ok # ValidateRun(pk[e.dh].pkts) THEN {"C11:unmarshal_vs_validate"}
+                      ELSE IF res.ok /\ res.out.pkts # pk[e.dh].pkts THEN {"C11:unmarshal_vs_datagram"} ELSE {})
+                  ELSE (IF res.ok THEN {"C11:unmarshal_vs_datagram"} ELSE {}))
+              ELSE {}
+         G(D) == UnmarshalGuard(D, e.entry, e.b, res) \cup X IN
      /\ pk' = [pk EXCEPT ![e.h] = IF res.ok THEN res.out ELSE None]
-     /\ memo' = [memo EXCEPT ![e.h] = NoMemo] /\ UNCHANGED << buf, prov >>
+     /\ memo' = [memo EXCEPT ![e.h] = NoMemo] /\ UNCHANGED << buf, prov, provdec >>
+     /\ fromdec' = IF res.ok THEN fromdec \cup {e.h} ELSE fromdec \ {e.h}
      /\ Step(Verdict(G, InputMod(e)),
-             DecClass("dec", DecAs({}, e.entry, buf[e.b]).st, res.ok)
-             \cup (IF prov[e.b].k = e.entry THEN {"roundtrips"} ELSE {}))
+             DecClass("dec", DecEntry({}, e.entry, buf[e.b]).st, res.ok)
+             \cup (IF prov[e.b].k = e.entry THEN {"roundtrips"} ELSE {}), e.entry)
 TrDatagram ==
   /\ e.op = "datagram"
   /\ LET res == DecRes(e)
          G(D) == DatagramGuard(D, e.b, res) IN
      /\ pk' = [pk EXCEPT ![e.h] = IF res.ok THEN [k |-> "LIST", pkts |-> res.out] ELSE None]
-     /\ memo' = [memo EXCEPT ![e.h] = NoMemo] /\ UNCHANGED << buf, prov >>
+     /\ memo' = [memo EXCEPT ![e.h] = NoMemo] /\ UNCHANGED << buf, prov, provdec >>
+     /\ fromdec' = IF res.ok THEN fromdec \cup {e.h} ELSE fromdec \ {e.h}
      /\ Step(Verdict(G, InputMod(e)),
              DecClass("dgram", DecDatagram({}, buf[e.b]).st, res.ok)
-             \cup (IF prov[e.b].k # "NONE" THEN {"roundtrips"} ELSE {}))
+             \cup (IF prov[e.b].k # "NONE" THEN {"roundtrips"} ELSE {}), "DGRAM")
 TrUnitDec ==
   /\ e.op = "udec"
   /\ LET res == DecRes(e)
          G(D) == UnitDecodeTags(e.entry, buf[e.b], res) IN
-     /\ UNCHANGED vars /\ Step(Verdict(G, InputMod(e)), {"unit_dec"})
+     /\ UNCHANGED vars /\ Step(Verdict(G, InputMod(e)), {"unit_dec"}, e.entry)
 TrUnitEnc ==
   /\ e.op = "uenc"
   /\ LET res == MarshalRes(e)
          G(D) == UnitEncodeTags(e.entry, e.v, res) IN
      /\ buf' = [buf EXCEPT ![e.h] = IF res.ok THEN res.out ELSE << >>]
-     /\ prov' = [prov EXCEPT ![e.h] = None] /\ UNCHANGED << pk, memo >>
-     /\ Step(Verdict(G, {}), {"unit_enc"})
+     /\ prov' = [prov EXCEPT ![e.h] = None] /\ provdec' = provdec \ {e.h} /\ UNCHANGED << pk, memo, fromdec >>
+     /\ Step(Verdict(G, {}), {"unit_enc"}, e.entry)
 
 TraceNext ==
   /\ l <= Len(Trace)
@@ -140,6 +159,6 @@ TraceSpec == TraceInit /\ [][TraceNext]_tvars
 Report ==
   l = Len(Trace) + 1 =>
      /\ PrintT(<< "VERIF_BAD", ToJson(bad) >>)
-     /\ PrintT(<< "VERIF_STATS", ToJson(stats) >>)
+     /\ PrintT(<< "VERIF_STATS", ToJson(Bump(stats, IF nt THEN {"cases_nontrivial"} ELSE {})) >>)
      /\ PrintT(<< "VERIF_DONE", l - 1 >>)
 =============================================================================
